@@ -47,6 +47,17 @@ CLAIMED = {
             "Theorem C13_partial; remnant carving and the NS-bin clause are decided by correspondence (model carve ops) and the sweep.",
             "np.linspace/np.geomspace trusted to 1e-12 of the model formulas; carving modelled, not proved.",
             "DESIGN §6 C13"),
+    "C01": ("Lean 4 proof that the closed form solves the model's ODE (HasDerivAt of A·Pk(α,1,l,m_to(t)) = the model derivative; deposit "
+            "rate = retained flux; the Nmin residue m* and its two-sided bound; per-piece number and mass = interval integrals of the IMF "
+            "density × linear remnant mass; turn-off breaks in the integration grid) + correspondence of the executable closed form "
+            "(ClosedBin.stars / closedRemnants) with real EvolvedMF rows at tightened tolerance",
+            "Theorem C01_partial over every bin/slope/normalisation/lifetime row/time; uniqueness of the ODE solution and dopri5's convergence "
+            "are not proved (partial): the real rows at rtol=atol=1e-10 are compared with the Lean closed form to 3e-6 (numbers) / 1e-4 "
+            "(masses) of each class total, and the property's own predicate is evaluated at default and tightened tolerance with an "
+            "independent quadrature oracle.",
+            "dopri5 trusted as an approximate solver; IFMR and bins taken from the real sub-objects (C09/C10/C13); remnant deposit glued "
+            "over class/bin crossings by the executable model with crossings found by bisection (checked, not proved).",
+            "DESIGN §6 C01"),
     "C02": ("Lean 4 proof about the stellar-evolution derivative model (single turn-off bin = first bin whose upper edge has turned off "
             "and it contains the turn-off mass; flux ≤ 0; deposit = retention × flux in the IFMR's class and bin with the IFMR mass; "
             "conservation and mass-never-gained corollaries) + exact-support correspondence on synthetic and recorded ODE states",
